@@ -49,6 +49,33 @@ def parallel_requests(ctx, n):
     return out
 
 
+def bitwise_parallel_requests(ctx, n):
+    """reference vector and surface normal given in the LAB frame as exactly +-(UB @ hkl) of the requested reflection (no re-normalisation in between:
+    bitwise parallel, whatever the direction's self-dot rounds to), many directions / cells / orientations, in the modes with alpha / beta / betain /
+    betaout — where the reference frame built on the scattering vector is inverted"""
+    out = []
+    modes = [tr for tr in PL.modes() if any(x in tr for x in ("alpha", "beta", "betain", "betaout"))]
+    setups = []
+    for lattice in ((4.0, 5.0, 6.0, 80, 95, 100), ("Hexagonal", 3.2, 5.1), (4.1, 5.2, 6.3), (3.9,)):
+        for rotvec in ((0.3, -0.5, 0.7), (0.11, 0.22, 0.33), (-0.4, 0.1, 0.25)):
+            setups.append((lattice, rotvec))
+    for _ in range(n):
+        lattice, rotvec = ctx.rng.choice(setups)
+        while True:
+            hkl = tuple(float(ctx.rng.randint(-3, 3)) for _ in range(3))
+            if any(hkl):
+                break
+        ub = mk_ub(lattice=lattice, rotvec=rotvec, n_hkl=None, surf_nhkl=None)
+        q = np.asarray(ub.UB, float) @ np.array(hkl)
+        sg = ctx.rng.choice([1.0, -1.0])
+        ub.n_phi = tuple(float(sg * x) for x in q)
+        ub.surf_nphi = tuple(float(sg * x) for x in q)
+        tr = ctx.rng.choice(modes)
+        vals = {nm: (True if nm in VOID else float(ctx.rng.choice([0.0, 90.0, -90.0, 12.5, -33.0, 45.0, ctx.rng.uniform(-90, 90)]))) for nm in tr}
+        out.append((ub, vals, hkl, 1.0, "bitwise-parallel"))
+    return out
+
+
 def special_requests(ctx, per_mode):
     out = []
     for tr in PL.modes():
@@ -164,7 +191,8 @@ def oracle(ctx, widen=1):
     from diffcalc.util import DiffcalcException
     reqs = (special_requests(ctx, ctx.scale(4, 200) * widen) + parallel_requests(ctx, ctx.scale(100, 5000) * widen)
             + zero_sweep(ctx, ctx.scale(1, 5)) + backscatter_requests(ctx, ctx.scale(300, 10000) * widen)
-            + PL.aligned_requests(ctx.rng, ctx.scale(2, 40) * widen) + beam_aligned_requests(ctx, ctx.scale(2500, 60000) * widen))
+            + PL.aligned_requests(ctx.rng, ctx.scale(2, 40) * widen) + beam_aligned_requests(ctx, ctx.scale(2500, 60000) * widen)
+            + bitwise_parallel_requests(ctx, ctx.scale(4000, 60000) * widen) + PL.diagonal_axis_requests(ctx.rng, ctx.scale(3000, 60000) * widen))
     kinds = set()
     for ub, vals, hkl, wl, tag in reqs:
         res = S.run_impl("full", HklCalculation(ub, Constraints(vals)), hkl, wl)
